@@ -72,6 +72,11 @@ pub fn frontend_header_is_reply_for(reply: &[u8; 12], req: &[u8; 12]) -> bool {
         .is_reply_for(&hdr_from::<VhostUserMsgHeader<FrontendReq>>(req))
 }
 
+/// `connection::get_sub_iovs_offset`.
+pub fn get_sub_iovs_offset(iov_lens: &[usize], skip_size: usize) -> (usize, usize) {
+    super::connection::verif_get_sub_iovs_offset(iov_lens, skip_size)
+}
+
 /// The crate-private socket endpoint (frontend-channel header type), for framing checks.
 pub struct RawEndpoint(Endpoint<VhostUserMsgHeader<FrontendReq>>);
 
